@@ -17,16 +17,20 @@ RULE = (
     "three datasets (Lean ev) and a sample on two more in CPython; non-trivial = at least 8 AST nodes; distinct = source text"
 )
 EXPLANATION = (
-    "Theorems: (1) every fusion rule the simplifier applies is value preserving under deferred execution, for every source, "
-    "every pair of lambdas, every world and environment: rule_select_select, rule_selectMany_select, rule_where_select, "
-    "rule_where_where, rule_select_selectMany, rule_where_selectMany, rule_selectMany_selectMany (built on the value-level "
-    "laws sel_sel, whr_whr, whr_sel, many_sel, sel_many, whr_many, many_many), rule_first_attr / rule_first_sub (first_sel), "
-    "rule_tuple_index / rule_list_index, make_Select's identity elimination (select_identity_sem, makeSelect_sem); (2) "
-    "denLz_coincide: the value depends only on the free names (basis of the freshness side conditions); (3) the fresh-name "
-    "supply (makeArgsUnique_counter, freshNames_mem). PARTIAL: the theorem for the whole visitor (substitution stack, "
-    "re-visiting) is not proved; that composition is covered per run by: correspondence of simplify_chained_calls vs the "
-    "compiled Lean simp on every generated query (modulo alpha), Lean ev of original vs simplified on three datasets, "
-    "CPython evaluation of both on two datasets for a sample."
+    "Main theorem simplifyCk_preserves (Props/C02Main.lean): for every world whose functions return well-formed values, "
+    "every well-formed environment (every dataset), every query e and every fuel / counter: if the checked simplifier model "
+    "returns e' and e evaluates under deferred execution to a value v without deferred failures, then e' evaluates to v "
+    "(simplifyCk_refines: in general to a refinement of the value). It is proved by induction over every clause of the "
+    "visitor (simpCk_sound) from: the refinement order on values and monotonicity of the semantics (denLz_mono), coincidence "
+    "on free names (denLz_coincide), the renaming lemma for make_args_unique (rename_le_both), the argument stack as a "
+    "substitution (EnvRel, sem_called_lambda: positional and keyword binding), and the rule theorems rule_* for every "
+    "fusion / push-down / projection rule. The checked model simpCk is simp with its side conditions (freshness of generated "
+    "names, no capture when a lambda is nested under another's parameter, parameters not used as callee names) as explicit "
+    "guards; that no guard ever fires is not yet a theorem: every run evaluates simpCk next to simp on every generated "
+    "query and reports any difference as a broken correspondence (unit simpCk-side-conditions). Comprehensions are refused "
+    "by simpCk (they are lowered by the sugar pass before the simplifier runs; the implementation captures a comprehension "
+    "target, see DESIGN 12.5). Per run: simplify_chained_calls vs the compiled Lean simp on every generated query (modulo "
+    "alpha), Lean ev of original vs simplified on three datasets, CPython evaluation of both on two datasets for a sample."
 )
 
 
